@@ -461,6 +461,11 @@ class C18(Prop):
                         out['detail'], feats | {'crash', cs})
                     continue
                 if oc == 'hang':
+                    if 'plane cap' in out['detail']:
+                        # mesh too fine for the harness to execute: not a
+                        # verdict about DASSH
+                        res['probes']['c18.too_fine_to_execute'] = 1
+                        continue
                     vio('outcome.hang', site, out['detail'], feats | {'hang'})
                     continue
                 if oc == 'deadlock':
@@ -496,7 +501,14 @@ class C18(Prop):
                     continue
                 if f is not None:
                     res['probes']['c18.file_fault_still_valid'] = 1
-                g = garbage(d, ntp)
+                # a file fault may change the number of time points
+                ntp_out = ntp
+                if f is not None and f['class'] == 'file':
+                    k = 0
+                    while os.path.isdir(os.path.join(d, f'timestep_{k + 1}')):
+                        k += 1
+                    ntp_out = k if k > 1 else 1
+                g = garbage(d, ntp_out)
                 if g:
                     vio('outcome.garbage_temperature', site, g,
                         feats | {'garbage'})
